@@ -266,6 +266,94 @@ Proof. exact GamessUsSpec.gus_example. Qed.
 Example gamess_us_ecp_example : gus_ecp_example_stmt.
 Proof. exact GamessUsEcpSpec.gus_ecp_example. Qed.
 
+(* ---- Dalton (Model/Dalton.v, Model/DaltonEcp.v).  The format lists the blocks of an element by position: what comes back for
+   ANY input the writer accepts is dal_read_back (momenta 0, 1, 2, ... by position), and the round trip is exact IF AND ONLY IF
+   the momenta of every element are contiguous from 0 (dal_roundtrip_iff) - the recorded known finding "dalton am-gap" with
+   its exact condition; contiguous momenta up to 24 come back unchanged.  Any file with an ECP section cannot be read back at
+   all: the writer prints Dalton's library layout, the reader expects the NWChem layout (dal_ecp_unreadable, for every input). *)
+From BSE Require Import Model.Dalton Proofs.DaltonDefs Model.DaltonEcp Proofs.DaltonEcpDefs.
+From BSE Require Proofs.DaltonSpec Proofs.DaltonEcpSpec.
+
+Theorem dalton_write_total : dal_write_total_stmt.
+Proof. exact DaltonSpec.dal_write_total. Qed.
+Print Assumptions dalton_write_total.
+
+Theorem dalton_what_comes_back : dal_roundtrip_positional_stmt.
+Proof. exact DaltonSpec.dal_roundtrip_positional. Qed.
+Print Assumptions dalton_what_comes_back.
+
+Theorem dalton_roundtrip : dal_roundtrip_stmt.
+Proof. exact DaltonSpec.dal_roundtrip_exact. Qed.
+Print Assumptions dalton_roundtrip.
+
+Theorem dalton_roundtrip_iff_contiguous : dal_roundtrip_iff_stmt.
+Proof. exact DaltonSpec.dal_roundtrip_iff. Qed.
+Print Assumptions dalton_roundtrip_iff_contiguous.
+
+Theorem dalton_contiguous_means_no_gap : dal_contiguous_sorted_stmt.
+Proof. exact DaltonSpec.dal_contiguous_sorted. Qed.
+Print Assumptions dalton_contiguous_means_no_gap.
+
+Theorem dalton_no_number_lost : dal_no_number_lost_stmt.
+Proof. exact DaltonSpec.dal_no_number_lost. Qed.
+Print Assumptions dalton_no_number_lost.
+
+Theorem dalton_gap_refuted : dal_gap_counterexample_stmt.
+Proof. exact DaltonSpec.dal_gap_counterexample. Qed.
+Print Assumptions dalton_gap_refuted.
+
+Theorem dalton_high_momenta_are_fine : dal_high_momenta_stmt.
+Proof. exact DaltonSpec.dal_high_momenta. Qed.
+Print Assumptions dalton_high_momenta_are_fine.
+
+Theorem dalton_ecp_files_unreadable : dal_ecp_unreadable_stmt.
+Proof. exact DaltonEcpSpec.dal_ecp_unreadable. Qed.
+Print Assumptions dalton_ecp_files_unreadable.
+
+Example dalton_example : dal_example_stmt.
+Proof. exact DaltonSpec.dal_example. Qed.
+
+Example dalton_ecp_example : dal_ecp_example_stmt.
+Proof. exact DaltonEcpSpec.dal_ecp_example. Qed.
+
+(* ---- Molpro library format (libmol), electron part (Model/Libmol.v).  The basis name is part of every shell header and
+   the reader only accepts names of a certain shape: the recorded known findings "no element at all for names like 6-31G",
+   "l >= 8 dropped", "ECP never read back" are theorems about the model (lmol_name, lmol_am_bound, lmol_ecp_dropped - the last
+   for every element symbol and every ECP line the writer can print). ---- *)
+From BSE Require Import Model.Libmol Proofs.LibmolDefs.
+From BSE Require Proofs.LibmolSpec.
+
+Theorem libmol_write_total : lmol_write_total_stmt.
+Proof. exact LibmolSpec.lmol_write_total. Qed.
+Print Assumptions libmol_write_total.
+
+Theorem libmol_roundtrip : lmol_roundtrip_stmt.
+Proof. exact LibmolSpec.lmol_roundtrip_exact. Qed.
+Print Assumptions libmol_roundtrip.
+
+Theorem libmol_only_outer_zeros_change : lmol_expected_col_stmt.
+Proof. exact LibmolSpec.lmol_expected_col_spec. Qed.
+Print Assumptions libmol_only_outer_zeros_change.
+
+Theorem libmol_no_number_lost : lmol_no_number_lost_stmt.
+Proof. exact LibmolSpec.lmol_no_number_lost. Qed.
+Print Assumptions libmol_no_number_lost.
+
+Theorem libmol_names_refuted : lmol_name_stmt.
+Proof. exact LibmolSpec.lmol_name. Qed.
+Print Assumptions libmol_names_refuted.
+
+Theorem libmol_momentum_bound : lmol_am_bound_stmt.
+Proof. exact LibmolSpec.lmol_am_bound. Qed.
+Print Assumptions libmol_momentum_bound.
+
+Theorem libmol_ecp_never_read_back : lmol_ecp_dropped_stmt.
+Proof. exact LibmolSpec.lmol_ecp_dropped. Qed.
+Print Assumptions libmol_ecp_never_read_back.
+
+Example libmol_example : lmol_example_stmt.
+Proof. exact LibmolSpec.lmol_example. Qed.
+
 (* ---- the whole Gaussian94 file: electron blocks + ECP blocks (Model/G94Ecp.v).  The reader takes the momenta of the potentials
    from the `-ECP lmax nelec` line and the ORDER of the blocks, never from their titles: the round trip holds exactly when the
    momenta are [L, 0, ..., L-1] for L+1 potentials.  (Imported last: the record G94Ecp.gpot shares its field names with
